@@ -27,7 +27,7 @@ from vf.harness import Fuel, FuelExhausted
 PROP = "C06"
 LEVEL = "exploration"
 MAX_STATES = 20000
-KNOWN_CLASS_STATES = 3000  # divergence is unbounded: any bound detects it
+KNOWN_CLASS_STATES = 1500  # divergence is unbounded: any bound detects it
 MAX_CHILDREN = 400
 RULE = (
     "case = (generated spec, input, request kind in {first, forest, api, prefix_first, prefix_forest}); inputs = all strings of "
@@ -227,7 +227,7 @@ def build_case(ing: dict[str, Any]) -> dict[str, Any]:
 
 
 KINDS = ["first", "forest", "api", "prefix_first", "prefix_forest"]
-TREE_CAP = 300
+TREE_CAP = 60
 
 
 def budget(spec: dict[str, Any], sem: Any, inp: str, kind: str, inf: bool) -> tuple[int, int]:
@@ -340,7 +340,7 @@ def evidence_extra(cov: dict[str, Any]) -> dict[str, Any]:
 
 
 def run_shard(ctx: Any) -> None:
-    n = 10 if ctx.tier == "quick" else 300
+    n = 5 if ctx.tier == "quick" else 300
 
     @given(ingredients())
     def test(ing: dict[str, Any]) -> None:
